@@ -243,8 +243,8 @@ CHECKS = {'C13': C13}
 
 class C14(SchemaCheck):
     id = 'C14'
-    examples = 40
-    thorough_examples = 700
+    examples = 120
+    thorough_examples = 1500
     family = 'c14'
     assumptions = ['schemas in which one repeating-group count field is used by two or three messages with different definitions: different member fields (disjoint, or one extra member), '
                    'a nested group against none, and - in about half of the schemas - two definitions engineered to collide under the compiler\'s structural hash: rothash is linear '
